@@ -132,3 +132,36 @@ func VerifC10_Idle() {
 	}
 	vpReach("end")
 }
+
+// VerifC10_EvictionDuringHandOver: the background eviction round on a member that is only a *previous* owner of
+// the partition (the hand-over to the new owner is not finished, its fragment still holds an expired or idle key)
+// and on the new owner. Neither round may wedge: the scan holds the fragment lock while it deletes "on the cluster",
+// and the list of previous owners it sends deletes to contains the scanning member itself. Afterwards every
+// operation on the fragment still gets through.
+func VerifC10_EvictionDuringHandOver() {
+	cl := vpNewCluster(vpClusterConfig{members: 2, replicaCount: 1, writeQuorum: 1, readQuorum: 1, partitions: 1,
+		dmaps: &config.DMaps{MaxIdleDuration: 10 * time.Millisecond}})
+	cl.vpSetOwners(0, []int{0, 1}, nil) // member 0: previous owner, member 1: current owner
+	now := vpNowMs()
+	for m := 0; m < 2; m++ {
+		if vpChoose("holds", 2) == 1 {
+			ttl := int64(0)
+			if vpChoose("expired", 2) == 1 {
+				ttl = now - 1000
+			}
+			vpPlace(cl.members[m], "d", "k", []byte{byte(m)}, ttl, 1, partitions.PRIMARY)
+		}
+	}
+	vpSleepMs(20) // past the idle window
+	first := vpChoose("first", 2)
+	cl.members[first].svc.evictKeys()
+	cl.members[1-first].svc.evictKeys()
+	// the fragment locks are free again: a write and a read through each member complete
+	ctx := context.Background()
+	for m := 0; m < 2; m++ {
+		vpAssert(vpDMap(cl.members[m], "d").Put(ctx, "k2", []byte{9}, nil) == nil, "write-after-eviction-round-completes")
+		_, err := vpDMap(cl.members[m], "d").Get(ctx, "k2")
+		vpAssert(err == nil, "read-after-eviction-round-completes")
+	}
+	vpReach("end")
+}
